@@ -499,6 +499,7 @@ type LoopSpec struct {
 	Invariants []Clause
 	Decreases  *Clause
 	Unroll     int
+	Uses       []Clause // lemma instances assumed at the loop header
 }
 
 type SiteSpec struct {
@@ -766,6 +767,12 @@ func (cs *ContractSet) loadContractFile(path, pkgPath string) error {
 						return err
 					}
 					ls.Decreases = &c
+				case "use":
+					c, err := mkClause(strings.Replace(body, "-", "_", strings.Count(body[:strings.Index(body+"(", "(")], "-")), ln.no)
+					if err != nil {
+						return err
+					}
+					ls.Uses = append(ls.Uses, c)
 				case "unroll":
 					n, err := strconv.Atoi(body)
 					if err != nil {
